@@ -11,7 +11,7 @@ static const char LAB[4] = { 'a', 'b', 'c', 'd' };      /* 'd' is only ever a pr
 
 typedef struct { spif_list_t l; spif_obj_t e[SMAX + 2]; char lab[SMAX + 2]; int n; } st_t;
 
-enum { K_APPEND, K_PREPEND, K_INSERT_AT, K_REMOVE, K_REMOVE_AT, K_REVERSE, K_DONE, K_INSERT_NULL };     /* K_INSERT_NULL: insert_at(NULL object, i) - a NULL element is refused whatever the position */      /* done(): the list gives up everything it holds and stays usable */
+enum { K_APPEND, K_PREPEND, K_INSERT_AT, K_REMOVE, K_REMOVE_AT, K_REVERSE, K_DONE, K_INSERT_NULL, K_REMOVE_STORED };     /* K_REMOVE_STORED: remove(the element stored at position i): it is the FIRST equal element that goes, whichever one was passed */     /* K_INSERT_NULL: insert_at(NULL object, i) - a NULL element is refused whatever the position */      /* done(): the list gives up everything it holds and stays usable */
 typedef struct { int k, x, i; } op_t;
 static op_t OPS[400]; static int NOPS;
 
@@ -25,6 +25,7 @@ static void build_ops(void)
     OPS[NOPS++] = (op_t) { K_REVERSE, 0, 0 };
     OPS[NOPS++] = (op_t) { K_DONE, 0, 0 };
     for (int i = -(S + 2); i <= S + 2; i++) OPS[NOPS++] = (op_t) { K_INSERT_NULL, 0, i };
+    for (int i = 1; i < S; i++) OPS[NOPS++] = (op_t) { K_REMOVE_STORED, 0, i };
 }
 static void op_name(int i, char *b, size_t n)
 {
@@ -38,6 +39,7 @@ static void op_name(int i, char *b, size_t n)
     case K_REVERSE: snprintf(b, n, "reverse()"); break;
     case K_DONE: snprintf(b, n, "done()"); break;
     case K_INSERT_NULL: snprintf(b, n, "insert_at(NULL,%d)", o->i); break;
+    case K_REMOVE_STORED: snprintf(b, n, "remove(get(%d))", o->i); break;
     }
 }
 static spif_list_t new_list(void)
@@ -63,6 +65,7 @@ static int enabled(void *vs, int op)
 {
     st_t *s = vs; op_t *o = &OPS[op];
     if ((o->k == K_INSERT_AT || o->k == K_REMOVE_AT || o->k == K_INSERT_NULL) && abs(o->i) > s->n + 2) return 0;     /* window(n) */
+    if (o->k == K_REMOVE_STORED) return o->i < s->n && s->e[o->i] != NULL;
     if (o->k == K_INSERT_NULL && CLS != 0) return 0;         /* only the array class documents a guard on the element (the linked classes store a NULL element; NULL is not an element value of the statement) */
     return new_len(s, o) <= S;
 }
@@ -142,6 +145,15 @@ static void apply(void *vs, int op)
                 memmove(s->e + at, s->e + at + 1, sizeof(s->e[0]) * (size_t) (s->n - at - 1)); memmove(s->lab + at, s->lab + at + 1, (size_t) (s->n - at - 1)); s->n--; }
         }
         break; }
+    case K_REMOVE_STORED: { spif_obj_t p = s->e[o->i]; m = "remove";
+        int at = -1; for (int k = 0; k < s->n; k++) if (s->lab[k] == s->lab[o->i]) { at = k; break; }
+        shape = at == o->i ? "stored element, no equal element before it" : "stored element with an equal element before it";
+        mc_set_shape(shape);
+        spif_obj_t r = SPIF_LIST_REMOVE(s->l, p);
+        if (r != s->e[at]) FAIL(site(m), "model:return", shape, "remove(element stored at %d) did not hand back the first equal element (position %d)", o->i, at);
+        else { SPIF_OBJ_DEL(r);
+            memmove(s->e + at, s->e + at + 1, sizeof(s->e[0]) * (size_t) (s->n - at - 1)); memmove(s->lab + at, s->lab + at + 1, (size_t) (s->n - at - 1)); s->n--; }
+        break; }
     case K_REMOVE_AT: { m = "remove_at";
         int i = o->i < 0 ? o->i + s->n : o->i, ok = i >= 0 && i < s->n;
         shape = !ok ? (s->n == 0 ? "empty list" : (i < 0 ? "idx normalises below zero" : "idx at or past len")) : (i == 0 ? "first position" : (i == s->n - 1 ? "last position" : "middle position"));
@@ -179,6 +191,15 @@ static void probe(void *vs)
     int holes = 0; for (int i = 0; i < n; i++) if (!s->e[i]) holes++;
     const char *shape = n == 0 ? "empty list" : (holes ? "list with NULL placeholders" : "non-empty list");
     mc_set_shape(shape);
+    /* a second list of the same class lives next to this one for a moment: its first append and prepend right after whatever this one just did concern only itself */
+    { spif_list_t b = new_list(); spif_obj_t x = mk(0), y = mk(1);
+      if (!SPIF_LIST_APPEND(b, x) || !SPIF_LIST_PREPEND(b, y)) FAIL(site("append"), "model:return", shape, "append/prepend on a second, empty list returned FALSE");
+      spif_iterator_t it = SPIF_LIST_ITERATOR(b); int k = 0; spif_obj_t g[4] = { 0, 0, 0, 0 };
+      while (it && k < 4 && SPIF_ITERATOR_HAS_NEXT(it)) g[k++] = SPIF_ITERATOR_NEXT(it);
+      if (it) SPIF_ITERATOR_DEL(it);
+      if ((int) SPIF_LIST_COUNT(b) != 2 || k != 2 || g[0] != y || g[1] != x || SPIF_LIST_GET(b, 0) != y || SPIF_LIST_GET(b, 1) != x)
+          FAIL(site("append"), "model:second-list", shape, "a second list holds count=%d and iterates %d elements after one append and one prepend", (int) SPIF_LIST_COUNT(b), k);
+      SPIF_LIST_DEL(b); }
     if ((int) SPIF_LIST_COUNT(l) != n) FAIL(site("count"), "model:return", shape, "count=%d model %d", (int) SPIF_LIST_COUNT(l), n);
     for (int i = -(n + 2); i <= n + 2; i++) {
         int k = i < 0 ? i + n : i; spif_obj_t ex = (k >= 0 && k < n) ? s->e[k] : NULL;
